@@ -113,6 +113,29 @@ Definition res := outcome (str * N * list pair).
 (** does rule(R, _) record a pair when called under atomicity [a]? *)
 Definition records (a : atomicity) : bool := match a with AAtomic => false | _ => true end.
 
+(** generate_rule of pest_generator, for a call of rule [r] under atomicity [a]:
+    - [body_sk]: is the body generated with skip calls (generate_expr) or without (generate_expr_atomic:
+      [@]/[$] rules and the rules named WHITESPACE / COMMENT);
+    - [body_atomicity]: the atomicity the body runs under;
+    - [rule_records]: is a pair recorded for this call ([_] rules never; [$]/[!] switch the atomicity
+      before state.rule, so always; otherwise iff the caller is not Atomic). *)
+Definition static_atomic (r : R) : bool :=
+  match r_mod (g_rule g r) with MAtomic | MCompound => true | _ => false end.
+Definition body_sk (r : R) : bool := negb (static_atomic r || is_special r).
+Definition body_atomicity (r : R) (a : atomicity) : atomicity :=
+  match r_mod (g_rule g r) with
+  | MAtomic => AAtomic
+  | MCompound => ACompound
+  | MNonAtomic => if is_special r then AAtomic else ANon
+  | MNormal | MSilent => if is_special r then AAtomic else a
+  end.
+Definition rule_records (r : R) (a : atomicity) : bool :=
+  match r_mod (g_rule g r) with
+  | MSilent => false
+  | MCompound | MNonAtomic => true
+  | MNormal | MAtomic => records a
+  end.
+
 (** [run fuel sk a e inp i]: [sk] = the expression belongs to a rule generated with skip calls;
     [a] = current atomicity; [inp] = the input from offset [i] on.
     [reps] is the loop  (skip e)*  of a repetition (skip being a no-op when [sk] is false or the
@@ -143,20 +166,8 @@ Fixpoint run (fuel : nat) (sk : bool) (a : atomicity) (e : pexp) (inp : str) (i 
     | Soi => if N.eqb i 0 then Ok (inp, i, []) else Fail
     | Eoi => match inp with [] => Ok (inp, i, []) | _ :: _ => Fail end
     | Call r =>
-        let d := g_rule g r in
-        let special := is_special r in
-        let static_atomic := match r_mod d with MAtomic | MCompound => true | _ => false end in
-        let body_sk := negb (static_atomic || special) in
-        let a_tok := match r_mod d with MCompound => ACompound | MNonAtomic => ANon | _ => a end in
-        let a_body := match r_mod d with
-                      | MAtomic => AAtomic
-                      | MCompound => ACompound
-                      | MNonAtomic => if special then AAtomic else ANon
-                      | MNormal | MSilent => if special then AAtomic else a
-                      end in
-        let tok := match r_mod d with MSilent => false | _ => records a_tok end in
-        match run f body_sk a_body (r_exp d) inp i with
-        | Ok (inp', i', ps) => Ok (inp', i', if tok then [Pair r i i' ps] else ps)
+        match run f (body_sk r) (body_atomicity r a) (r_exp (g_rule g r)) inp i with
+        | Ok (inp', i', ps) => Ok (inp', i', if rule_records r a then [Pair r i i' ps] else ps)
         | Fail => Fail
         | OutOfFuel => OutOfFuel
         end
